@@ -834,6 +834,24 @@ def numpy_array_2d_via_fits_from(
     return np.array(hdu_list[hdu].data).astype("float64")
 
 
+def pixel_scales_via_header_from(header) -> Union[float, Tuple[float, float]]:
+    """
+    Returns the pixel scales stored in the header of a .fits HDU by the `pixel_scale_header` of a mask or structure.
+
+    If both dimensions have the same pixel scale the header has a single `PIXSCALE` entry, which is returned as a
+    float. If they differ the header has separate `PIXSCALEY` and `PIXSCALEX` entries, which are returned as
+    a (y,x) tuple.
+
+    Parameters
+    ----------
+    header
+        The header of the HDU (e.g. `primary_hdu.header`) the pixel scales are read from.
+    """
+    if "PIXSCALEY" in header and "PIXSCALEX" in header:
+        return (header["PIXSCALEY"], header["PIXSCALEX"])
+    return header["PIXSCALE"]
+
+
 def header_obj_from(file_path: Union[Path, str], hdu: int) -> Dict:
     """
     Read a 2D NumPy array from a .fits file.
